@@ -213,13 +213,14 @@ void* vf_os_mmap(void* addr, size_t len, int prot, int flags, int fd, long off) 
   VF_OS_POINT();
   os_lock();
   long idx = vf_os.ncalls;
-  if (plan_fails(VF_C_MMAP, idx) || (flags & MAP_HUGETLB)) {
+  if (plan_fails(VF_C_MMAP, idx) || ((flags & MAP_HUGETLB) && !vf_os.grant_hugetlb)) {
     /* huge-TLB mappings are never available in the modelled OS (keeps residency 4 KiB granular) */
     log_call(VF_C_MMAP, prot, (uintptr_t)addr, len, (uintptr_t)MAP_FAILED, 1);
     os_unlock();
     errno = ENOMEM;
     return MAP_FAILED;
   }
+  if (flags & MAP_HUGETLB) flags &= ~(MAP_HUGETLB | (0x3f << 26));   /* granted: emulated with ordinary pages (MAP_HUGE_* size bits dropped) */
   if (vf_os.ignore_hint && addr != NULL && !(flags & MAP_FIXED)) {
     /* environment answer "hint not honoured": deterministic placement below the 48 TiB limit of mimalloc's segment map, never
        aligned to more than 4 KiB */
